@@ -5,6 +5,7 @@ import (
 	"fmt"
 	"io"
 	"strings"
+	"time"
 
 	"github.com/jf-tech/omniparser/idr"
 
@@ -68,6 +69,7 @@ type rnode struct {
 	Ty       string
 	Data     string
 	Pfx, URI string
+	Pred     string // the prefix HEAD's reader predicts: the last prefix declared for URI, document-wide
 	Kids     []*rnode
 }
 
@@ -79,7 +81,24 @@ func scopeURI(env []binding, pfx string) string {
 	return u
 }
 
-func refTree(env []binding, n *xn) []*rnode {
+// lastWins is the tiny reference of the reader's namespace handling at /repo HEAD: one map
+// URI -> prefix for the whole document, every declaration overwrites (updateNamespaces), a node
+// gets the prefix the map holds for its URI when it is reached.
+type lastWins map[string]string
+
+func newLastWins() lastWins { return lastWins{xmlURL: "xml"} }
+
+func (lw lastWins) declare(attrs []xa) {
+	for _, a := range attrs {
+		if a.Loc == "xmlns" {
+			lw[a.Val] = ""
+		} else if a.Pfx == "xmlns" {
+			lw[a.Val] = a.Loc
+		}
+	}
+}
+
+func refTree(env []binding, lw lastWins, n *xn) []*rnode {
 	switch n.K {
 	case xText:
 		return []*rnode{{Ty: "TextNode", Data: n.Text}}
@@ -87,29 +106,33 @@ func refTree(env []binding, n *xn) []*rnode {
 		return nil
 	}
 	env2 := pushDecls(env, n.Attrs)
+	lw.declare(n.Attrs)
 	e := &rnode{Ty: "ElementNode", Data: n.Loc, Pfx: n.Pfx, URI: scopeURI(env2, n.Pfx)}
+	e.Pred = lw[e.URI]
 	for _, a := range n.Attrs {
 		an := &rnode{Ty: "AttributeNode", Data: a.Loc}
 		switch {
 		case a.Pfx == "xmlns":
-			an.Pfx = "xmlns" // a namespace declaration, as the reader keeps it
+			an.Pfx, an.Pred = "xmlns", "xmlns" // a namespace declaration, as the reader keeps it
 		case a.Pfx == "":
 		default:
 			an.Pfx, an.URI = a.Pfx, scopeURI(env2, a.Pfx)
+			an.Pred = lw[an.URI]
 		}
 		an.Kids = []*rnode{{Ty: "TextNode", Data: a.Val}}
 		e.Kids = append(e.Kids, an)
 	}
 	for _, k := range n.Kids {
-		e.Kids = append(e.Kids, refTree(env2, k)...)
+		e.Kids = append(e.Kids, refTree(env2, lw, k)...)
 	}
 	return []*rnode{e}
 }
 
 func refDoc(items []*xn) *rnode {
 	d := &rnode{Ty: "DocumentNode"}
+	lw := newLastWins()
 	for _, it := range items {
-		d.Kids = append(d.Kids, refTree(nil, it)...)
+		d.Kids = append(d.Kids, refTree(nil, lw, it)...)
 		if it.K == xElem {
 			break
 		}
@@ -117,8 +140,29 @@ func refDoc(items []*xn) *rnode {
 	return d
 }
 
-// diffTree returns "" when the idr tree equals the reference tree, else the first difference.
-func diffTree(n *idr.Node, r *rnode, path string) string {
+// lastWinsOK: the last-wins prediction equals the written (in-scope) prefix at every node, i.e.
+// the document is outside the known class F11 (guard lastwins_ok of the model).
+func lastWinsOK(r *rnode) bool {
+	if r.URI != "" && r.Pred != r.Pfx {
+		return false
+	}
+	for _, k := range r.Kids {
+		if !lastWinsOK(k) {
+			return false
+		}
+	}
+	return true
+}
+
+// strictPrefix: report every prefix difference, also on nodes of the known class (set for the
+// corpus witness of F11, which must keep failing until the reader scopes its map).
+var strictPrefix bool
+
+// diffTree compares the idr tree with the reference tree node by node.  It returns the first
+// difference that is a failure ("" if none) and counts in *known the nodes whose prefix differs
+// from the written one where the last-wins map of HEAD predicts a wrong prefix as well (members
+// of the known class F11: not reported, unless strictPrefix).
+func diffTree(n *idr.Node, r *rnode, path string, known *int) string {
 	here := path + "/" + r.Ty + "(" + r.Data + ")"
 	if n.Type.String() != r.Ty {
 		return fmt.Sprintf("%s: node type %s, want %s", here, n.Type, r.Ty)
@@ -134,14 +178,18 @@ func diffTree(n *idr.Node, r *rnode, path string) string {
 		return fmt.Sprintf("%s: namespace URI %q, want %q", here, fs.NamespaceURI, r.URI)
 	}
 	if fs.NamespacePrefix != r.Pfx {
-		return fmt.Sprintf("%s: namespace prefix %q is not the prefix %q written in the document and bound to %q in scope", here, fs.NamespacePrefix, r.Pfx, r.URI)
+		if r.Pred == r.Pfx || r.URI == "" || strictPrefix {
+			return fmt.Sprintf("%s: namespace prefix %q is not the prefix %q written in the document and bound to %q in scope (a document-wide last-declaration-wins map gives %q here)",
+				here, fs.NamespacePrefix, r.Pfx, r.URI, r.Pred)
+		}
+		*known++
 	}
 	c := n.FirstChild
 	for i, rk := range r.Kids {
 		if c == nil {
 			return fmt.Sprintf("%s: child %d (%s %q) missing", here, i, rk.Ty, rk.Data)
 		}
-		if d := diffTree(c, rk, here); d != "" {
+		if d := diffTree(c, rk, here, known); d != "" {
 			return d
 		}
 		c = c.NextSibling
@@ -421,6 +469,9 @@ type textCase struct {
 // gen is the generator's DOM (nil for raw texts: the DOM is then read back with RawToken).
 func runXML(sum *vh.Summary, cw *vh.CaseWriter, text string, gen []*xn, verbose bool) (failed bool) {
 	cs := textCase{Kind: "xml", Text: text}
+	if sum != nil {
+		vh.Current(opts, cs)
+	}
 	obs := map[string]interface{}{}
 	fail := func(what string, detail interface{}) {
 		failed = true
@@ -436,7 +487,13 @@ func runXML(sum *vh.Summary, cw *vh.CaseWriter, text string, gen []*xn, verbose 
 		}
 	}
 	toks, tokEvs, tokErr := xmlTokens(text)
-	guard := domErr == nil && nsWF(dom) && uriSinglePrefix(dom)
+	wf := domErr == nil && nsWF(dom)
+	var ref *rnode
+	if domErr == nil {
+		ref = refDoc(dom)
+	}
+	// the guard of xml_prefix_in_scope: namespace-well-formed and HEAD's last-wins map right everywhere
+	guard := wf && lastWinsOK(ref)
 
 	var n *idr.Node
 	var readErr error
@@ -482,7 +539,9 @@ func runXML(sum *vh.Summary, cw *vh.CaseWriter, text string, gen []*xn, verbose 
 			fail("well-formed XML document was not read into a node tree", obs["read_err"])
 		case n != nil:
 			root := vh.Root(n)
-			obs["tree"] = coqTree(root)
+			if len(text) <= 20000 {
+				obs["tree"] = coqTree(root)
+			}
 			// (a) faithful to the token stream, whatever the namespaces
 			var tev []string
 			treeEvents(root, &tev)
@@ -497,17 +556,16 @@ func runXML(sum *vh.Summary, cw *vh.CaseWriter, text string, gen []*xn, verbose 
 			if !same {
 				fail("tree does not preserve the token sequence (element order, local names, URIs, attributes first and in order, character data)",
 					map[string]interface{}{"tree_events": tev, "token_events": consumed})
-			} else if guard {
-				// (b) equal to the document's DOM, prefixes included
-				if d := diffTree(root, refDoc(dom), ""); d != "" {
+			} else if wf {
+				// (b) equal to the document's DOM, prefixes included - on EVERY namespace-well-formed
+				// document, node by node: a prefix that differs from the written one is a failure
+				// unless HEAD's document-wide last-wins map is wrong at that node too (known class F11)
+				known := 0
+				if d := diffTree(root, ref, "", &known); d != "" {
 					fail("tree differs from the document's DOM", d)
 				}
-			} else if d := diffTree(root, refDoc(dom), ""); d != "" && nsWF(dom) {
-				// outside uri_single_prefix: the known class F11; only the listed corpus witness is
-				// reported (runText decides), generated documents never get here with an oracle
-				obs["outside_guard_diff"] = d
-				if gen == nil {
-					fail("tree differs from the document's DOM", d)
+				if known > 0 {
+					obs["nodes_in_known_class_F11"] = known
 				}
 			}
 		}
@@ -531,9 +589,11 @@ func runXML(sum *vh.Summary, cw *vh.CaseWriter, text string, gen []*xn, verbose 
 		}
 	}
 	if verbose {
-		fmt.Printf("xml text: %q\n guard(ns_wf && uri_single_prefix)=%v read_err=%v\n", text, guard, readErr)
-		if n != nil {
-			fmt.Printf(" implementation tree: %s\n reference DOM diff: %q\n", coqTree(vh.Root(n)), diffTree(vh.Root(n), refDoc(dom), ""))
+		fmt.Printf("xml text: %q\n guard(ns_wf && lastwins_ok)=%v uri_single_prefix=%v read_err=%v\n", text, guard, domErr == nil && uriSinglePrefix(dom), readErr)
+		if n != nil && ref != nil {
+			known := 0
+			d := diffTree(vh.Root(n), ref, "", &known)
+			fmt.Printf(" implementation tree: %s\n reference DOM diff: %q; nodes in the known class F11: %d\n", coqTree(vh.Root(n)), d, known)
 		}
 	}
 	return
@@ -686,7 +746,7 @@ func genElem(r *vh.Rng, st *xstats, env []binding, depth, maxDepth int, twoPrefi
 	var decls []xa
 	declared := map[string]bool{}
 	nd := 0
-	if r.Chance(0.45) || depth == 0 && r.Chance(0.5) {
+	if r.Chance(0.45) || depth == 0 && r.Chance(0.5) || *twoPrefix && r.Chance(0.5) {
 		nd = r.Between(1, 2)
 	}
 	for i := 0; i < nd; i++ {
@@ -699,11 +759,15 @@ func genElem(r *vh.Rng, st *xstats, env []binding, depth, maxDepth int, twoPrefi
 		if p != "" && u == "" {
 			continue
 		}
-		if *twoPrefix && len(env) > 0 && r.Chance(0.5) {
-			// bind the URI of some binding in scope to a different prefix
-			b := env[r.Pick(len(env))]
-			if b.uri != "" && b.pfx != p {
-				u = b.uri
+		if *twoPrefix && r.Chance(0.6) {
+			// re-bind: a URI from a small pool shared by all prefixes (nested, sibling and
+			// default+prefixed re-bindings of one URI all come out of this), or the URI of a
+			// binding in scope under a different prefix
+			u = r.PickStr("urn:s1", "urn:s1", "urn:s2")
+			if len(env) > 0 && r.Chance(0.4) {
+				if b := env[r.Pick(len(env))]; b.uri != "" && b.pfx != p {
+					u = b.uri
+				}
 			}
 		}
 		declared[p] = true
@@ -836,7 +900,7 @@ func (n *xn) serialise(r *vh.Rng, sb *strings.Builder) {
 
 func genXMLCase(r *vh.Rng, sum *vh.Summary, cw *vh.CaseWriter) {
 	st := &xstats{}
-	two := r.Chance(0.15)
+	two := r.Chance(0.5)
 	twoFlag := two
 	var items []*xn
 	var sb strings.Builder
@@ -863,7 +927,8 @@ func genXMLCase(r *vh.Rng, sum *vh.Summary, cw *vh.CaseWriter) {
 		it.serialise(r, &sb)
 	}
 	text := sb.String()
-	inside := nsWF(items) && uriSinglePrefix(items)
+	single := uriSinglePrefix(items)
+	inside := nsWF(items) && lastWinsOK(refDoc(items))
 	nontrivial := st.decls > 0 || st.attrs > 0
 	sum.Count("xml:"+text, nontrivial)
 	sum.Hist(fmt.Sprintf("xml:depth:%d", st.depth))
@@ -873,12 +938,17 @@ func genXMLCase(r *vh.Rng, sum *vh.Summary, cw *vh.CaseWriter) {
 			sum.Hist(k)
 		}
 	}
-	if !inside {
-		sum.Hist("xml:outside-uri_single_prefix(correspondence only)")
+	if !single {
+		sum.Hist("xml:uri-rebound-to-a-second-prefix")
+		if inside {
+			sum.Hist("xml:uri-rebound,last-wins-right(full DOM oracle)")
+		} else {
+			sum.Hist("xml:uri-rebound,known-class-F11-at-some-node(other nodes checked)")
+		}
 	}
 	nf := len(sum.Failures)
 	failed := runXML(sum, cw, text, items, false)
-	if failed && len(sum.Failures) == nf+1 {
+	if failed && len(sum.Failures) == nf+1 && nf < 4 {
 		// the oracle fails: shrink the document and report the minimal failing text instead
 		sum.Failures = sum.Failures[:nf]
 		min := shrinkXML(items)
@@ -919,7 +989,24 @@ func xmlCandidates(e *xn) []*xn {
 			out = append(out, k)
 		}
 	}
+	if n := len(e.Kids); n > 6 {
+		for _, cut := range [][2]int{{0, n / 2}, {n / 2, n}} {
+			c := cloneXN(e)
+			c.Kids = append(c.Kids[:cut[0]:cut[0]], c.Kids[cut[1]:]...)
+			out = append(out, c)
+		}
+	}
+	if n := len(e.Attrs); n > 6 {
+		for _, cut := range [][2]int{{0, n / 2}, {n / 2, n}} {
+			c := cloneXN(e)
+			c.Attrs = append(c.Attrs[:cut[0]:cut[0]], c.Attrs[cut[1]:]...)
+			out = append(out, c)
+		}
+	}
 	for i := range e.Kids {
+		if len(e.Kids) > 200 {
+			break
+		}
 		c := cloneXN(e)
 		c.Kids = append(c.Kids[:i:i], c.Kids[i+1:]...)
 		// dropping an item may leave two plain texts adjacent: drop those variants
@@ -935,11 +1022,17 @@ func xmlCandidates(e *xn) []*xn {
 		}
 	}
 	for i := range e.Attrs {
+		if len(e.Attrs) > 200 {
+			break
+		}
 		c := cloneXN(e)
 		c.Attrs = append(c.Attrs[:i:i], c.Attrs[i+1:]...)
 		out = append(out, c)
 	}
 	for i, k := range e.Kids {
+		if len(e.Kids) > 200 {
+			break
+		}
 		for _, kc := range xmlCandidates(k) {
 			c := cloneXN(e)
 			c.Kids[i] = kc
@@ -950,6 +1043,7 @@ func xmlCandidates(e *xn) []*xn {
 }
 
 func shrinkXML(items []*xn) string {
+	deadline := time.Now().Add(6 * time.Second)
 	var root *xn
 	for _, it := range items {
 		if it.K == xElem {
@@ -962,9 +1056,12 @@ func shrinkXML(items []*xn) string {
 		e.serialise(nil, &sb)
 		return sb.String()
 	}
-	for round := 0; round < 300; round++ {
+	for round := 0; round < 300 && time.Now().Before(deadline); round++ {
 		progress := false
 		for _, c := range xmlCandidates(root) {
+			if !time.Now().Before(deadline) {
+				break
+			}
 			if runXML(nil, nil, text(c), nil, false) {
 				root, progress = c, true
 				break
@@ -975,4 +1072,56 @@ func shrinkXML(items []*xn) string {
 		}
 	}
 	return text(root)
+}
+
+// bigXMLDocs: one document with thousands of sibling elements (each with attributes and text,
+// some re-binding a namespace URI in their own scope) and one element with thousands of
+// attributes; Go-side oracles only.
+func bigXMLDocs(r *vh.Rng, sum *vh.Summary, cw *vh.CaseWriter) {
+	st := &xstats{}
+	root := &xn{K: xElem, Pfx: "lib", Loc: "library", Attrs: []xa{{Pfx: "xmlns", Loc: "lib", Val: "urn:lib", raw: `xmlns:lib="urn:lib"`},
+		{Pfx: "", Loc: "xmlns", Val: "urn:d1", raw: `xmlns="urn:d1"`}}}
+	n := r.Between(3000, 6000)
+	for i := 0; i < n; i++ {
+		e := &xn{K: xElem, Loc: "book"}
+		if i%3 == 0 {
+			// an inner scope re-binds urn:lib to its own prefix and uses it (HEAD's last-wins map is right here)
+			e.Pfx = "bk"
+			e.Attrs = append(e.Attrs, xa{Pfx: "xmlns", Loc: "bk", Val: "urn:lib", raw: `xmlns:bk="urn:lib"`},
+				xa{Pfx: "bk", Loc: "id", Val: fmt.Sprint(i), raw: fmt.Sprintf(`bk:id="%d"`, i)})
+		} else {
+			e.Attrs = append(e.Attrs, xa{Loc: "id", Val: fmt.Sprint(i), raw: fmt.Sprintf(`id="%d"`, i)},
+				xa{Pfx: "xml", Loc: "lang", Val: "en", raw: `xml:lang="en"`})
+		}
+		e.Kids = append(e.Kids, genText(r, st, false))
+		if i%5 == 0 {
+			e.Kids = append(e.Kids, &xn{K: xElem, Loc: "t", Kids: []*xn{{K: xText, Text: fmt.Sprint(i), raw: fmt.Sprint(i)}}})
+		}
+		root.Kids = append(root.Kids, e)
+		if i%7 == 0 {
+			root.Kids = append(root.Kids, &xn{K: xText, Text: "\n", raw: "\n"})
+		}
+	}
+	wide := &xn{K: xElem, Loc: "wide", selfClose: true}
+	for i, k := 0, r.Between(2000, 4000); i < k; i++ {
+		wide.Attrs = append(wide.Attrs, xa{Loc: fmt.Sprintf("a%d", i), Val: fmt.Sprint(i), raw: fmt.Sprintf(`a%d="%d"`, i, i)})
+	}
+	root.Kids = append(root.Kids, wide)
+	for _, doc := range [][]*xn{{root}} {
+		var sb strings.Builder
+		for _, it := range doc {
+			it.serialise(nil, &sb)
+		}
+		text := sb.String()
+		sum.Count(fmt.Sprintf("xml-big:%d", len(text)), true)
+		sum.Hist("xml:big-document(thousands of siblings/attributes, oracle only)")
+		nf := len(sum.Failures)
+		if runXML(sum, nil, text, doc, false) && len(sum.Failures) == nf+1 && nf < 4 {
+			sum.Failures = sum.Failures[:nf]
+			min := shrinkXML(doc)
+			shrunkFrom = fmt.Sprintf("a generated document with %d sibling elements and an element with %d attributes", n, len(wide.Attrs))
+			runXML(sum, nil, min, nil, false)
+			shrunkFrom = ""
+		}
+	}
 }
